@@ -7,7 +7,7 @@ ID = "C22"
 LEVEL = "proof"
 PROPS = "props/C22.v"
 RUNNER = ("Gen.Gen_C22", "run_case")
-STATIC_MODULES = ["SAV.sql.DispatchRun", "SAV.sql.DispatchProofs", "SAV.sql.DispatchFragProofs"]
+STATIC_MODULES = ["SAV.sql.DispatchRun", "SAV.sql.DispatchProofs", "SAV.sql.DispatchFragProofs", "SAV.sql.DispatchCteProofs"]
 
 RULE = (
     "model-compared families: (elem) every distinct (visit name, compiler class) pair of the built-in dialects, run "
@@ -18,7 +18,9 @@ RULE = (
     "clauselist operators, dialect-specific elements, CAST and CREATE TABLE with generic and dialect-specific types) "
     "compiled on every dialect, outcome ok / UnsupportedCompilationError / internal vs the model's walk; (index) "
     "CREATE/DROP INDEX x name kinds x DDL compilers; (pickle) operate/pickle histories. oracle-only family (fuzz): "
-    "generated SELECT/DML/DDL statements x 7 dialects x option variants, exception class of compile(). non-trivial = "
+    "generated SELECT/DML/DDL statements (incl. CTE graphs with add_cte(nest_here) where a CTE is reachable indirectly and "
+    "directly, DML and dialect upserts nested as CTEs, string label references in window / WITHIN GROUP ORDER BY inside DML) "
+    "x 21 dialect variants x option variants, exception class of compile(). non-trivial = "
     "the case reaches at least two dispatch steps or is a fuzz statement with >= 3 clauses"
 )
 TRUSTED = [
@@ -75,6 +77,8 @@ ANCHORS = [
     ("lib/sqlalchemy/sql/compiler.py", "SQLCompiler.visit_custom_op_binary"),
     ("lib/sqlalchemy/sql/compiler.py", "SQLCompiler.visit_custom_op_unary_operator"),
     ("lib/sqlalchemy/sql/compiler.py", "SQLCompiler.visit_custom_op_unary_modifier"),
+    ("lib/sqlalchemy/sql/compiler.py", "SQLCompiler.visit_cte"),
+    ("lib/sqlalchemy/sql/compiler.py", "SQLCompiler.visit_textual_label_reference"),
     ("lib/sqlalchemy/sql/compiler.py", "DDLCompiler._prepared_index_name"),
     ("lib/sqlalchemy/sql/compiler.py", "IdentifierPreparer.format_constraint"),
     ("lib/sqlalchemy/sql/compiler.py", "IdentifierPreparer.format_index"),
